@@ -1489,6 +1489,36 @@ def identity_keyed_positions(repo, modules: set[str]):
                     if kv in names and len(names) > 1:
                         siblings |= set(names) - {kv}
                 used = {x.id for x in ast.walk(val) if isinstance(x, ast.Name)} & siblings
+                # … nor on what the loop carries from one position to the next (a running offset, a counter): names of the loop body
+                # whose value depends on themselves, directly or through other names assigned in the body
+                lp = getattr(n, "_parent", None)
+                while lp is not None and not isinstance(lp, ast.For):
+                    lp = getattr(lp, "_parent", None) if lp is not f.node else None
+                if isinstance(lp, ast.For) and not isinstance(n, ast.DictComp):
+                    deps: dict[str, set] = {}
+                    for a in ast.walk(lp):
+                        tg = a.targets if isinstance(a, ast.Assign) else [a.target] if isinstance(a, (ast.AugAssign, ast.AnnAssign)) and getattr(a, "value", None) is not None else []
+                        for t in tg:
+                            for y in ast.walk(t):
+                                if isinstance(y, ast.Name) and isinstance(y.ctx, ast.Store):
+                                    ds = {z.id for z in ast.walk(a.value) if isinstance(z, ast.Name)}
+                                    if isinstance(a, ast.AugAssign):
+                                        ds.add(y.id)
+                                    deps.setdefault(y.id, set()).update(ds)
+
+                    def closure(names):
+                        seen, work = set(), list(names)
+                        while work:
+                            x = work.pop()
+                            for d in deps.get(x, ()):
+                                if d not in seen:
+                                    seen.add(d)
+                                    work.append(d)
+                        return seen
+
+                    carried = {x for x in deps if x in closure([x])}
+                    vnames = {x.id for x in ast.walk(val) if isinstance(x, ast.Name)}
+                    used |= (vnames | closure(vnames)) & carried
                 out.append((f, n, kv, sorted(used), not used))
     return out
 
